@@ -129,21 +129,37 @@ LineSeq(n) ==
             <<W(w), Raw("_[ln](/uri)_", "<em><a href=\"/uri\">ln</a></em>"), W("x")>>, <<Raw("**`co`**", "<strong><code>co</code></strong>"), W(w)>>,
             <<W(w), Raw("**_[ln](/uri)_**", "<strong><em><a href=\"/uri\">ln</a></em></strong>")>>, <<Raw("(_\"a\"_)", "(<em>\"a\"</em>)"), W(w)>>,
             <<W(w), Raw("*__`co`__*", "<em><strong><code>co</code></strong></em>"), W("x")>>,
-            <<W(w), Ref("{SZ}")>>, <<Ref("SS"), W(w)>>, <<W(w), Ref("bar{TAB}baz")>> >>)
+            <<W(w), Ref("{SZ}")>>, <<Ref("SS"), W(w)>>, <<W(w), Ref("bar{TAB}baz")>>,
+            <<W(w), Raw("\\*lit\\*", "*lit*"), Raw("\\[x\\]", "[x]")>>, <<Raw("&amp;", "&amp;"), W(w), Raw("&lt;b&gt;", "&lt;b&gt;"), Raw("&#35;", "#")>>,
+            <<W(w), Raw("<http://x.y/z?a=1>", "<a href=\"http://x.y/z?a=1\">http://x.y/z?a=1</a>")>>, <<Raw("<b>raw</b>", "<b>raw</b>"), W(w)>>,
+            <<W(w), Raw("``a`b``", "<code>a`b</code>"), Raw("` a `", "<code>a</code>")>>, <<Raw("~~gone~~", "<del>gone</del>"), W(w)>>,
+            <<W(w), Raw("![alt *e*](/i \"t\")", "<img src=\"/i\" alt=\"alt e\" title=\"t\" />")>>, <<Raw("[a `c`](</d e> 'q')", "<a href=\"/d%20e\" title=\"q\">a <code>c</code></a>"), W(w)>>,
+            <<W(w), Raw("a*b*c", "a<em>b</em>c"), Raw("snake_case_word", "snake_case_word")>> >>)
 
 (* spelling variants: every action draws one index v and derives its free spelling choices from it, so that in
    simulation mode every kind of block is typed about equally often; over many documents all combinations occur *)
-Variants == Pick({0, 1}, 0..3, 0..12)
+Variants == Pick({0, 1}, 0..3, 0..13)
 At(sq, i) == sq[(i % Len(sq)) + 1]
 LineAt(v) == At(LineSeq(nblocks + 1), 2 * v + 3 * nblocks)
 
 ---------------------------------------------------------------------------
 (* containers *)
-RECURSIVE PrefixNow(_), PrefixRest(_), PrefixLazy(_, _)
-PrefixNow(fr)  == IF fr = << >> THEN "" ELSE (IF Head(fr).started THEN Head(fr).rest ELSE Head(fr).first) \o PrefixNow(Tail(fr))
-PrefixRest(fr) == IF fr = << >> THEN "" ELSE Head(fr).rest \o PrefixRest(Tail(fr))
-(* a paragraph continuation line may drop the prefixes of the innermost `drop` containers (laziness) *)
-PrefixLazy(fr, keep) == IF fr = << >> \/ keep = 0 THEN "" ELSE Head(fr).rest \o PrefixLazy(Tail(fr), keep - 1)
+(* a line is assembled from the inside out: a quote frame typed "bare" writes its marker without the optional space when
+   what follows on the line is not empty and does not start with a space (otherwise the marker would swallow that space) *)
+RECURSIVE Assemble(_, _, _, _)
+Assemble(fr, mode, keep, content) ==       \* mode: "now" (first-line prefixes where pending) | "rest" | "lazy" (only the outermost `keep` frames)
+    IF fr = << >> THEN content
+    ELSE LET f == Head(fr)
+             dropped == mode = "lazy" /\ keep = 0
+             inner == Assemble(Tail(fr), mode, IF mode = "lazy" /\ keep > 0 THEN keep - 1 ELSE keep, content)
+             p == IF mode = "now" /\ ~f.started THEN f.first ELSE f.rest IN
+         IF dropped THEN inner
+         ELSE IF f.kind = "quote" /\ f.bare /\ inner # "" /\ SubSeq(inner, 1, 1) # " " THEN ">" \o inner
+         ELSE p \o inner
+LineNow(content)  == Assemble(open, "now", 0, content)
+LineRest(content) == Assemble(open, "rest", 0, content)
+LineLazy(keep, content) == Assemble(open, "lazy", keep, content)
+PrefixRest(fr) == Assemble(fr, "rest", 0, "")
 Started(fr) == [i \in DOMAIN fr |-> [fr[i] EXCEPT !.started = TRUE]]
 
 Depth == Len(open)
@@ -180,7 +196,17 @@ AfterPara == {"atx", "fence", "quote", "hrstar", "blist", "olist1", "html"}
 NoBlankOk(next) ==
     CASE last.kind \in {"atx", "setext", "hr", "fence", "def"} -> next \notin {"code", "table"}
       [] last.kind = "para"  -> next \in AfterPara
+      [] last.kind \in {"quote", "list"} ->
+            (* directly after a closed container.  If its last block is an open paragraph only a block that interrupts a
+               paragraph may follow; otherwise nothing is lazy and any block may follow (text that follows is NOT a lazy
+               continuation: tag "lazy-after-nonpara").  A quote directly after a quote would continue it. *)
+            /\ ~(last.kind = "quote" /\ next = "quote")
+            /\ last.inner # "table"
+            /\ next \notin {"code", "table", "elist"}
+            /\ (last.inner = "para" => next \in AfterPara)
       [] OTHER -> FALSE
+
+LazyTag(sep) == IF sep = "none" /\ last.kind \in {"quote", "list"} THEN {"lazy-after-nonpara"} ELSE {}
 
 (* a definition typed directly in a list item: whether a blank line next to it makes the list loose is not settled by
    the specification text (the definition is not a block of the item), so no blank line is typed next to it there *)
@@ -209,15 +235,15 @@ Leaf(kindForSep, kindForLast, sep, node, lines, lazyKeep) ==
     /\ FirstKindOk(kindForLast)
     /\ SepOk(sep, kindForSep)
     /\ LET sl == SepLines(sep)
-           first == PrefixNow(open) \o lines[1]
+           first == LineNow(lines[1])
            rest == [i \in 1..(Len(lines) - 1) |->
                       IF lines[i + 1] = "" THEN RStrip(PrefixRest(open))
-                      ELSE (IF lazyKeep < Depth THEN PrefixLazy(open, lazyKeep) ELSE PrefixRest(open)) \o lines[i + 1]] IN
+                      ELSE (IF lazyKeep < Depth THEN LineLazy(lazyKeep, lines[i + 1]) ELSE LineRest(lines[i + 1]))] IN
        /\ src' = src \o sl \o <<first>> \o rest
        /\ nodes' = Append(nodes, [node EXCEPT !.ln = Len(src) + Len(sl) + 1])
     /\ loose' = LooseAfter(sep)
     /\ open' = Started(open)
-    /\ last' = [kind |-> kindForLast, mtype |-> ""]
+    /\ last' = [kind |-> kindForLast, mtype |-> "", inner |-> kindForLast]
     /\ nblocks' = nblocks + 1
     /\ UNCHANGED <<defs, phase, target>>
 
@@ -236,7 +262,7 @@ TypePara ==
               tx == IF two THEN <<[atoms |-> l1, hard |-> hard], [atoms |-> l2, hard |-> FALSE]>> ELSE <<[atoms |-> l1, hard |-> FALSE]>>
               lines == IF two THEN <<Spaces(ind) \o LineSrc(l1) \o (IF hard THEN "\\" ELSE ""), LineSrc(l2)>> ELSE <<Spaces(ind) \o LineSrc(l1)>> IN
           /\ Leaf("para", "para", sep, Node("Paragraph", Parent, 0, 0, tx, ""), lines, keep)
-          /\ tags' = tags \cup (IF keep < Depth THEN {"lazy-continuation"} ELSE {})
+          /\ tags' = tags \cup (IF keep < Depth THEN {"lazy-continuation"} ELSE {}) \cup LazyTag(sep)
                           \cup (IF keep < Depth /\ KF_LazyIndented(keep, ind) THEN {"lazy-after-indented-quote-content"} ELSE {})
 
 TypeAtx ==
@@ -257,7 +283,7 @@ TypeSetext ==
            l1 == LineAt(v) IN
        /\ Leaf("setext", "setext", sep, Node("SetextHeading", Parent, 0, lv, <<[atoms |-> l1, hard |-> FALSE]>>, ""),
                <<LineSrc(l1), SubSeq(IF lv = 1 THEN "===" ELSE "---", 1, ul)>>, Depth)
-       /\ tags' = tags \cup (IF InQuote THEN {"setext-in-quote"} ELSE {})
+       /\ tags' = tags \cup (IF InQuote THEN {"setext-in-quote"} ELSE {}) \cup LazyTag(sep)
 
 (* a thematic break; "---" cannot follow paragraph text directly (it would be a setext underline), and on the first
    line of a bullet item the characters of the marker would merge with it *)
@@ -322,11 +348,11 @@ TypeTable ==
            allRows == IF Len(rows) = 1 THEN rowNodes(1) ELSE rowNodes(1) \o rowNodes(2) IN
        /\ Budget /\ FirstKindOk("table")
        /\ ~DefInItem
-       /\ src' = src \o SepLines(sep) \o <<PrefixNow(open) \o lines[1]>> \o [i \in 1..(Len(lines) - 1) |-> PrefixRest(open) \o lines[i + 1]]
+       /\ src' = src \o SepLines(sep) \o <<LineNow(lines[1])>> \o [i \in 1..(Len(lines) - 1) |-> LineRest(lines[i + 1])]
        /\ nodes' = Append(nodes, Node("Table", Parent, base + 1, 0, NoText, [aligns |-> aligns, hdr |-> hdr, rows |-> rows])) \o allRows
        /\ loose' = LooseAfter(sep)
        /\ open' = Started(open)
-       /\ last' = [kind |-> "table", mtype |-> ""]
+       /\ last' = [kind |-> "table", mtype |-> "", inner |-> "table"]
        /\ nblocks' = nblocks + 1
        /\ tags' = tags \cup (IF InItemFirstLine THEN {"table-on-marker-line"} ELSE {})
        /\ UNCHANGED <<defs, phase, target>>
@@ -355,29 +381,30 @@ TypeDef ==
        /\ Budget
        /\ FirstKindOk("def")
        /\ SepOk(sep, "def")
-       /\ src' = src \o SepLines(sep) \o <<PrefixNow(open) \o "[" \o l \o "]: " \o d \o t>>
+       /\ src' = src \o SepLines(sep) \o <<LineNow("[" \o l \o "]: " \o d \o t)>>
        /\ defs' = Append(defs, [label |-> l, href |-> Href(d), title |-> TitleOf(t), line |-> Len(src) + Len(SepLines(sep)) + 1])
        /\ loose' = LooseAfter(sep)
        /\ open' = Started(open)
-       /\ last' = [kind |-> "def", mtype |-> ""]
+       /\ last' = [kind |-> "def", mtype |-> "", inner |-> "def"]
        /\ nblocks' = nblocks + 1
-       /\ UNCHANGED <<nodes, phase, tags, target>>
+       /\ tags' = tags \cup LazyTag(sep)
+       /\ UNCHANGED <<nodes, phase, target>>
 
 ---------------------------------------------------------------------------
 (* containers *)
 (* a block quote may begin with a line that holds only the marker *)
 OpenQuote ==
-    \E sep \in Seps, bs \in BOOLEAN :
+    \E sep \in Seps, bs \in BOOLEAN, bare \in Pick({FALSE}, BOOLEAN, BOOLEAN) :
        /\ phase = "typing" /\ Depth < MaxDepth /\ nblocks < MaxBlocks
        /\ FirstKindOk("quote")
        /\ SepOk(sep, "quote")
-       /\ src' = IF bs THEN src \o SepLines(sep) \o <<PrefixNow(open) \o ">">> ELSE src \o SepLines(sep)
+       /\ src' = IF bs THEN src \o SepLines(sep) \o <<LineNow(">")>> ELSE src \o SepLines(sep)
        /\ nodes' = Append(nodes, Node("Quote", Parent, Len(src) + Len(SepLines(sep)) + 1, 0, NoText, ""))
        /\ open' = Append(IF bs THEN Started(open) ELSE open,
                          [kind |-> "quote", node |-> Len(nodes) + 1, list |-> 0, first |-> "> ", rest |-> "> ", started |-> bs,
-                          marker |-> ">", mtype |-> "", num |-> 0, indent |-> 0, pad |-> 1])
+                          marker |-> ">", mtype |-> "", num |-> 0, indent |-> 0, pad |-> 1, bare |-> bare])
        /\ loose' = LooseAfter(sep)
-       /\ last' = [kind |-> "none", mtype |-> ""]
+       /\ last' = [kind |-> "none", mtype |-> "", inner |-> "none"]
        /\ nblocks' = IF bs THEN nblocks + 1 ELSE nblocks
        /\ tags' = tags \cup (IF bs THEN {"quote-begins-with-blank-line"} ELSE {})
        /\ UNCHANGED <<defs, phase, target>>
@@ -393,7 +420,8 @@ SepKind(m) == IF "b" \in DOMAIN m THEN "blist" ELSE IF m.n = 1 THEN "olist1" ELS
 ItemFrame(listId, nodeId, m, indent, pad) ==
     LET f == Spaces(indent) \o MarkerStr(m) \o Spaces(pad) IN
     [kind |-> "item", node |-> nodeId, list |-> listId, first |-> f, rest |-> Spaces(Len(f)), started |-> FALSE,
-     marker |-> SubSeq(MarkerStr(m), 1, 1), mtype |-> MarkerType(m), num |-> (IF "b" \in DOMAIN m THEN 0 ELSE m.n), indent |-> indent, pad |-> pad]
+     marker |-> SubSeq(MarkerStr(m), 1, 1), mtype |-> MarkerType(m), num |-> (IF "b" \in DOMAIN m THEN 0 ELSE m.n), indent |-> indent, pad |-> pad,
+     bare |-> FALSE]
 
 (* the item frames at the top of the stack whose marker line has not been written yet and whose marker is ch *)
 PendingSame(ch) == {i \in DOMAIN open : open[i].kind = "item" /\ ~open[i].started /\ open[i].marker = ch /\ ch \in {"-", "*"}
@@ -416,13 +444,13 @@ OpenList ==
        /\ IndOk(indent)
        /\ ~(last.kind = "list" /\ last.mtype = MarkerType(m))          \* two adjacent lists of one type are one list
        /\ ~(bs /\ Cardinality(PendingSame(MarkerStr(m))) >= 2)                   \* "- - -" on one line is a thematic break
-       /\ src' = IF bs THEN src \o sl \o <<PrefixNow(open) \o Spaces(indent) \o MarkerStr(m)>> ELSE src \o sl
+       /\ src' = IF bs THEN src \o sl \o <<LineNow(Spaces(indent) \o MarkerStr(m))>> ELSE src \o sl
        /\ nodes' = nodes \o <<Node("List", Parent, Len(src) + Len(sl) + 1, 0, NoText, [start |-> (IF "b" \in DOMAIN m THEN 0 ELSE m.n), ordered |-> ~("b" \in DOMAIN m)]),
                               Node("ListItem", Len(nodes) + 1, Len(src) + Len(sl) + 1, 0, NoText, "")>>
        /\ open' = IF bs THEN Append(Started(open), EmptyStartFrame(Len(nodes) + 1, Len(nodes) + 2, m, indent))
                         ELSE Append(open, ItemFrame(Len(nodes) + 1, Len(nodes) + 2, m, indent, pad))
        /\ loose' = LooseAfter(sep)
-       /\ last' = [kind |-> "none", mtype |-> ""]
+       /\ last' = [kind |-> "none", mtype |-> "", inner |-> "none"]
        /\ tags' = tags \cup (IF bs THEN {"item-begins-with-blank-line"} ELSE {})
        /\ nblocks' = IF bs THEN nblocks + 1 ELSE nblocks       \* an item that may stay empty counts against the budget
        /\ UNCHANGED <<defs, phase, target>>
@@ -431,18 +459,17 @@ OpenList ==
 NextItem ==
     \E sep \in Seps, pad \in Pick({1}, {1}, {1, 3}), bs \in BOOLEAN :
        /\ phase = "typing" /\ open # << >> /\ Top.kind = "item" /\ Top.started /\ nblocks < MaxBlocks
-       /\ (sep = "none" => last.kind \notin {"list", "quote"})           \* see tag "lazy": a closed container needs care
        /\ (sep = "none" /\ bs => last.kind # "para")                    \* a lone "-" under paragraph text is a setext underline
        /\ LET m == IF Top.num = 0 /\ Top.marker \in Bullets THEN [b |-> Top.marker] ELSE [n |-> Top.num + 1, d |-> Top.mtype]
               outer == SubSeq(open, 1, Len(open) - 1)
               blank == RStrip(PrefixRest(outer))
               sl == IF sep = "blank" THEN <<blank>> ELSE << >> IN
-          /\ src' = IF bs THEN src \o sl \o <<PrefixRest(outer) \o Spaces(Top.indent) \o MarkerStr(m)>> ELSE src \o sl
+          /\ src' = IF bs THEN src \o sl \o <<Assemble(outer, "rest", 0, Spaces(Top.indent) \o MarkerStr(m))>> ELSE src \o sl
           /\ nodes' = Append(nodes, Node("ListItem", Top.list, Len(src) + Len(sl) + 1, 0, NoText, ""))
           /\ open' = IF bs THEN Append(outer, EmptyStartFrame(Top.list, Len(nodes) + 1, m, Top.indent))
                            ELSE Append(outer, ItemFrame(Top.list, Len(nodes) + 1, m, Top.indent, pad))
           /\ loose' = IF sep = "blank" THEN loose \cup {Top.list} ELSE loose
-       /\ last' = [kind |-> "none", mtype |-> ""]
+       /\ last' = [kind |-> "none", mtype |-> "", inner |-> "none"]
        /\ tags' = tags \cup (IF bs THEN {"item-begins-with-blank-line"} ELSE {})
        /\ nblocks' = IF bs THEN nblocks + 1 ELSE nblocks
        /\ UNCHANGED <<defs, phase, target>>
@@ -450,7 +477,8 @@ NextItem ==
 Close ==
     /\ phase = "typing" /\ open # << >> /\ Top.started
     /\ open' = SubSeq(open, 1, Len(open) - 1)
-    /\ last' = [kind |-> (IF Top.kind = "quote" THEN "quote" ELSE "list"), mtype |-> Top.mtype]
+    /\ last' = [kind |-> (IF Top.kind = "quote" THEN "quote" ELSE "list"), mtype |-> Top.mtype,
+                 inner |-> (IF last.kind \in {"quote", "list"} THEN last.inner ELSE last.kind)]     \* the innermost last block
     /\ UNCHANGED <<src, nodes, loose, defs, nblocks, phase, target>>
 
 Finish ==
@@ -460,7 +488,7 @@ Finish ==
 
 Init ==
     /\ src = << >> /\ open = << >> /\ nodes = <<Node("Document", 0, 1, 0, NoText, "")>> /\ loose = {} /\ defs = << >>
-    /\ last = [kind |-> "none", mtype |-> ""] /\ nblocks = 0 /\ phase = "typing" /\ tags = {}
+    /\ last = [kind |-> "none", mtype |-> "", inner |-> "none"] /\ nblocks = 0 /\ phase = "typing" /\ tags = {}
     /\ target \in (IF Rich THEN 2..MaxBlocks ELSE {1})
 
 Next == TypePara \/ TypeAtx \/ TypeSetext \/ TypeHr \/ TypeFence \/ TypeIndented \/ TypeDef \/ TypeTable \/ TypeHtml
